@@ -108,6 +108,20 @@ func (r *run) failf(kind, prop, name, format string, args ...any) {
 // and its events, and call r.failf on a violation.
 var windowChecks []func(r *run, primary string, before, after *scheduler.VerifState, events []string)
 
+// modelTaps see every line sent to the Sched model driver and its answer (tree_test.go forwards
+// them to drv_schedtree, the refinement layer that carries the invocation tree).
+var modelTaps []func(r *run, line, out string)
+
+func (r *run) askModel(line string) (string, error) {
+	out, err := r.drv.Ask(line)
+	if err == nil {
+		for _, f := range modelTaps {
+			f(r, line, out)
+		}
+	}
+	return out, err
+}
+
 func entityOf(ev string) string {
 	f := strings.Fields(ev)
 	switch f[0] {
@@ -246,7 +260,7 @@ func (r *run) window(primary string, an string) {
 	var model []string
 	now := w.clk.now
 	ask := func(line string) []string {
-		out, err := r.drv.Ask(line + " " + hints)
+		out, err := r.askModel(line + " " + hints)
 		if err != nil {
 			r.failf("mismatch", "", "Sched correspondence (driver)", "driver: %v", err)
 			return nil
@@ -290,7 +304,7 @@ func (r *run) window(primary string, an string) {
 		r.fail.expected, r.fail.actual = strings.Join(cm, ";"), strings.Join(ci, ";")
 		return
 	}
-	md, err := r.drv.Ask("dump")
+	md, err := r.askModel("dump")
 	if err != nil {
 		r.failf("mismatch", "", "Sched correspondence (driver)", "driver: %v", err)
 		return
@@ -429,7 +443,7 @@ func (r *run) apply(line string) {
 		if err := w.bq.RegisterPredeclaredPlatformQueue(mustInstance(compsToInstance(comps)), platformMsg(plat), stick, atoi(a[3]), int32(atoi(a[4])), usizes); err != nil {
 			return
 		}
-		out, _ := r.drv.Ask(fmt.Sprintf("regpq %d %s %d %s %s %s", w.pqID(comps, plat), intsStr(comps), plat, intsStr(sizes), a[3], a[4]))
+		out, _ := r.askModel(fmt.Sprintf("regpq %d %s %d %s %s %s", w.pqID(comps, plat), intsStr(comps), plat, intsStr(sizes), a[3], a[4]))
 		if out != "ok" {
 			r.failf("mismatch", "", "Sched correspondence (driver)", "regpq: %s", out)
 		}
@@ -676,7 +690,7 @@ func runHistory(t *testing.T, drv *hx.Driver, lines []string, quiesce bool) *run
 	synctest.Test(t, func(t *testing.T) {
 		r.w = newWorld(defaultCfg)
 		c := defaultCfg
-		out, err := drv.Ask(fmt.Sprintf("cfg %d %d %d %d %d %d %d %d", c.update, c.idle, c.noWaiter, c.pqTimeout, c.busy, c.workerTimeout, c.retryCount, epoch+c.pqTimeout))
+		out, err := r.askModel(fmt.Sprintf("cfg %d %d %d %d %d %d %d %d", c.update, c.idle, c.noWaiter, c.pqTimeout, c.busy, c.workerTimeout, c.retryCount, epoch+c.pqTimeout))
 		if err != nil || out != "ok" {
 			r.failf("mismatch", "", "Sched correspondence (driver)", "cfg: %v %s", err, out)
 		}
@@ -701,7 +715,7 @@ func synctest_run(t *testing.T, r *run, body func()) {
 	synctest.Test(t, func(t *testing.T) {
 		r.w = newWorld(defaultCfg)
 		c := defaultCfg
-		out, err := r.drv.Ask(fmt.Sprintf("cfg %d %d %d %d %d %d %d %d", c.update, c.idle, c.noWaiter, c.pqTimeout, c.busy, c.workerTimeout, c.retryCount, epoch+c.pqTimeout))
+		out, err := r.askModel(fmt.Sprintf("cfg %d %d %d %d %d %d %d %d", c.update, c.idle, c.noWaiter, c.pqTimeout, c.busy, c.workerTimeout, c.retryCount, epoch+c.pqTimeout))
 		if err != nil || out != "ok" {
 			r.failf("mismatch", "", "Sched correspondence (driver)", "cfg: %v %s", err, out)
 		}
